@@ -454,6 +454,10 @@ def rest_sum_rule(ctx: Ctx, fe, sites, eroles) -> None:
               message=f"{[short(b) for b in bounds]}: a rest token could cross a bar line", file=fe.file, node=closure)
     if bounds:
         nxt = bounds[0].targets[0].id
+        # temporaries introduced by a refactoring are substituted; the role variables stay symbolic
+        for s_ in ast.walk(loop):
+            if isinstance(s_, ast.Assign) and len(s_.targets) == 1 and isinstance(s_.targets[0], ast.Name) and s_.targets[0].id not in (buf, V, nxt, rem):
+                nz.assign(s_.targets[0], s_.value)
         # V is chosen from the step sizes, never larger than nxt
         defs = [s_ for s_ in ast.walk(loop) if isinstance(s_, ast.Assign) and isinstance(s_.targets[0], ast.Name) and s_.targets[0].id == V]
         ok = bool(defs)
